@@ -140,9 +140,10 @@ theorem Inv.addOnNewArena {Γ : SEnv} {σ : DState} (inv : Inv Γ σ) (ne : Entr
     · rw [← ha, harena]
     · rw [hpool hp] at ha; cases ha
   apply inv1.add ne r hfresh hvalid hT
-  · refine ⟨?_, ?_⟩
+  · refine ⟨?_, ?_, ?_⟩
     · intro l hl; rw [hparam] at hl; cases hl
     · intro p m h; rw [hself] at h; cases h
+    · intro p m h; rw [hparam] at h; cases h
   · intro h; exact absurd h hkv
   · intro e he hv hke re hre ex hex hend
     have h1 := notOn _ hend.1
@@ -193,9 +194,10 @@ theorem Inv.addInert {Γ : SEnv} {σ : DState} (inv : Inv Γ σ) (ne : Entry) (r
     · rcases hk with h | h <;> rw [h] at hb <;> cases hb
     · rw [hpool] at ha; cases ha
   apply inv.add ne r hfresh hvalid hT
-  · refine ⟨?_, ?_⟩
+  · refine ⟨?_, ?_, ?_⟩
     · intro l hl; rw [hparam] at hl; cases hl
     · intro p m h; rw [hself] at h; cases h
+    · intro p m h; rw [hparam] at h; cases h
   · intro _ ex hex; rw [hep] at hex; cases hex
   · intro e he hv hke re hre ex hex hend; exact absurd hend.1 (notOn _)
   · intro h; rw [hH] at h; cases h
@@ -794,7 +796,11 @@ theorem Inv.addVal {Γ : SEnv} {σ : DState} (inv : Inv Γ σ) {e : Entry} {rh :
     · intro ex hex
       exact (inv.epochs rh.arena).2 ex (List.mem_of_getLast? hex)
     · intro h; cases h
-  · exact ⟨fun l hl => hl, hclosed⟩
+  · refine ⟨fun l hl => hl, hclosed, ?_⟩
+    intro p m hp ep hep hvar l hl
+    rcases hclosed p m hp with ⟨ep0, hep0, h1, _, _, h4⟩
+    have := inv.eq_of_var_eq hep hep0 (hvar.trans h1.symm)
+    subst this; exact h4 l hl
   · intro _ ex hex
     have hex' : (σ.epochs rh.arena).getLast? = some ex := hex
     refine ⟨List.mem_of_getLast? hex', ?_⟩
@@ -818,6 +824,7 @@ theorem Inv.addDerived {Γ : SEnv} {σ : DState} (inv : Inv Γ σ) {e : Entry} (
     (hself3 : ∀ l ∈ ne.self, l = .borrow e.var m ∨ l ∈ e.self ∨ ∃ k, l = .frame k)
     (hparam1 : ∀ l ∈ ne.param, l ∈ ne.self) (hparam2 : ∀ l ∈ e.param, l ∈ ne.param)
     (hparam3 : (e.kind = .guard ∨ (e.kind = .bump ∧ e.acc ≠ .shrRef)) → Loan.borrow e.var m ∈ ne.param)
+    (hparam4 : ∀ p mo, Loan.borrow p mo ∈ ne.param → ∀ ep ∈ Γ.ents, ep.var = p → ∀ l ∈ ep.self, l ∈ ne.param)
     (hexcl : ne.acc ≠ .shrRef → m = .mut ∧ e.acc ≠ .shrRef)
     (hW : ne.kind = .scope → ne.acc = .own → ∀ l ∈ ne.self, l ∈ ne.param)
     (hbump : ne.kind = .bump → ne.acc ≠ .own) (hgacc : ne.kind = .guard → ne.acc = .own)
@@ -853,7 +860,7 @@ theorem Inv.addDerived {Γ : SEnv} {σ : DState} (inv : Inv Γ σ) {e : Entry} (
     · intro _; rw [hra]; exact ht4 heH
     · intro n hn; exact (hep n hn).2.1
     · intro _ n hn; rw [hra]; exact (hep n hn).2.2.2.1
-  · refine ⟨hparam1, ?_⟩
+  · refine ⟨hparam1, ?_, hparam4⟩
     intro p mo hp
     rcases hself3 _ hp with h | h | ⟨k, h⟩
     · cases h
@@ -925,5 +932,105 @@ theorem Inv.addDerived {Γ : SEnv} {σ : DState} (inv : Inv Γ σ) {e : Entry} (
     · rcases inv.uniq h1 hh1 hv1 hH1 hacc1 e he hev heH hhe r1 rh hr1 hrh (by rw [har, hra]) with h | h
       · rw [hK.mutOn hh1 hv1] at h; exact absurd h Bool.false_ne_true
       · exact Region.on_of_subset hself2 h
+
+/-! ### method calls -/
+
+theorem checkCall_ok {t : Table} {Γ Γ' : SEnv} {x h : Var} {op : Op} {owner name : String}
+    (hc : checkCall t Γ x h op owner name = .ok Γ') :
+    ∃ sig e Γ1 res, sig ∈ t.sigs ∧ sig.op = op ∧ op ≠ .enterScoped ∧ op ≠ .enterAligned ∧
+      Γ.lookupValid h = .ok e ∧ applicable t sig.ownerK e = true ∧ Γ.access e (effRecv sig) = .ok Γ1 ∧
+      mkResult x Γ.depth e (effRecv sig).mode sig.ret sig.lts = some res ∧
+      (match res with | none => Γ' = Γ1 | some ne => Γ1.declare ne = .ok Γ') := by
+  unfold checkCall at hc
+  cases hl : t.lookup owner name with
+  | none => rw [hl] at hc; cases hc
+  | some sig =>
+    rw [hl] at hc; simp only at hc
+    have hmem : sig ∈ t.sigs := List.mem_of_find?_eq_some hl
+    by_cases hcond : (sig.op != op || op == .enterScoped || op == .enterAligned) = true
+    · rw [if_pos hcond] at hc; cases hc
+    · rw [if_neg hcond] at hc
+      simp only [Bool.or_eq_true, not_or, bne_iff_ne, ne_eq, Decidable.not_not, beq_iff_eq] at hcond
+      cases hle : Γ.lookupValid h with
+      | error r => rw [hle] at hc; cases hc
+      | ok e =>
+        rw [hle] at hc; simp only at hc
+        by_cases happ : (!applicable t sig.ownerK e) = true
+        · rw [if_pos happ] at hc; cases hc
+        · rw [if_neg happ] at hc
+          have happ' : applicable t sig.ownerK e = true := by simpa using happ
+          cases hacc : Γ.access e (effRecv sig) with
+          | error r => rw [hacc] at hc; cases hc
+          | ok Γ1 =>
+            rw [hacc] at hc; simp only at hc
+            cases hres : mkResult x Γ.depth e (effRecv sig).mode sig.ret sig.lts with
+            | none => rw [hres] at hc; cases hc
+            | some res =>
+              rw [hres] at hc
+              cases res with
+              | none =>
+                simp only at hc; cases hc
+                exact ⟨sig, e, _, none, hmem, hcond.1.1, hcond.1.2, hcond.2, rfl, happ', hacc, hres, rfl⟩
+              | some ne =>
+                simp only at hc
+                exact ⟨sig, e, Γ1, some ne, hmem, hcond.1.1, hcond.1.2, hcond.2, rfl, happ', hacc, hres, hc⟩
+
+theorem access_ok {Γ Γ1 : SEnv} {e : Entry} {r : Recv} (h : Γ.access e r = .ok Γ1) :
+    (r = .ref ∧ Γ1 = Γ.useShr e.var) ∨ (r = .refMut ∧ e.acc ≠ .shrRef ∧ Γ1 = Γ.useMut e.var) ∨
+    (r = .value ∧ e.movable = true ∧ e.kind ≠ .claim ∧ e.kind ≠ .poolGuard ∧ Γ1 = Γ.remove e.var) := by
+  unfold SEnv.access at h
+  cases r with
+  | ref => cases h; exact Or.inl ⟨rfl, rfl⟩
+  | refMut =>
+    simp only at h
+    split at h
+    · cases h
+    · rename_i hne
+      cases h
+      exact Or.inr (Or.inl ⟨rfl, by simpa using hne, rfl⟩)
+  | value =>
+    simp only at h
+    split at h
+    · rename_i hmv
+      cases h
+      simp only [Bool.and_eq_true, bne_iff_ne, ne_eq] at hmv
+      exact Or.inr (Or.inr ⟨rfl, hmv.1.1, hmv.1.2, hmv.2, rfl⟩)
+    · cases h
+
+theorem sigOK_sig {t : Table} (hok : sigOK t = true) {s : Sig} (hs : s ∈ t.sigs) : sigAdequate s = true := by
+  unfold sigOK at hok; simp only [Bool.and_eq_true] at hok
+  exact List.all_eq_true.1 hok.1.1.1.1.1 s hs
+
+theorem sigOK_impls {t : Table} (hok : sigOK t = true) : t.implLt .refMutBump = none := by
+  unfold sigOK at hok; simp only [Bool.and_eq_true] at hok
+  have h := hok.1.1.1.1.2
+  unfold Table.implLt
+  cases hf : t.scopeImpls.find? (fun i => i.ty == ImplTy.refMutBump) with
+  | none => rfl
+  | some i =>
+    exfalso
+    have hm := List.mem_of_find?_eq_some hf
+    have hty : i.ty = .refMutBump := by simpa using List.find?_some hf
+    have := List.all_eq_true.1 h i hm
+    unfold implAdequate at this
+    rw [hty] at this
+    cases hlt : i.lt <;> rw [hlt] at this <;> simp at this
+
+/-- the receiver is still there, valid, after a shared or exclusive use of itself -/
+theorem Inv.receiver_survives {Γ : SEnv} {σ : DState} (inv : Inv Γ σ) {e : Entry} (he : e ∈ Γ.ents) (hv : e.valid = true)
+    (p : Loan → Bool) (hp : ∀ l, p l = true → l.on e.var = true) : e ∈ killEnts p Γ.ents := by
+  apply mem_killEnts_of_survivor he
+  apply Bool.eq_false_iff.2
+  intro h
+  rcases List.any_eq_true.1 h with ⟨l, hl, hpl⟩
+  have : e.self.on e.var = true := List.any_eq_true.2 ⟨l, hl, hp l hpl⟩
+  rw [(inv.closed e he hv).2.2.1] at this
+  exact absurd this Bool.false_ne_true
+
+theorem noConflict_useShr (Γ : SEnv) (v : Var) : NoConflict (Γ.useShr v) v .shr := by
+  intro g hg hv; exact (mem_useShr_valid hg hv).2
+
+theorem noConflict_useMut (Γ : SEnv) (v : Var) : NoConflict (Γ.useMut v) v .mut := by
+  intro g hg hv; exact (mem_useMut_valid hg hv).2
 
 end Life
